@@ -122,6 +122,13 @@ func nextCloserDeniedWithWork(
 	for _, rr := range nsecSet {
 		n := rr.(*dns.NSEC)
 		if nsecCovers(n.Header().Name, n.NextDomain, nextCloser) {
+			// A next name below the next closer name means that name is
+			// an empty non-terminal: it exists, the wildcard does not
+			// apply to it (RFC 4592 §2.2.2) and the interval that
+			// "covers" it denies nothing (RFC 4035 §5.3.4).
+			if next := n.NextDomain; !nsecSameName(next, nextCloser) && dnsname.Sub(nextCloser, dns.Fqdn(next)) {
+				continue
+			}
 			return true, true, nil
 		}
 	}
